@@ -1,6 +1,8 @@
 //! unit: u02b
 //! properties: C02 C10
 //! note: RAA blockers (PeerState::actions_blocking_raa_monitor_updates): registering a blocker on a channel appends it to that channel's list and never drops a blocker already registered (for this or any other channel) -- the monitor update of the downstream peer's next revoke_and_ack stays held until every upstream preimage it depends on is durably persisted
+//! trusted: R15 (deep slice): ChannelManager::process_pending_monitor_events: the body of the MonitorEvent::HTLCEvent arm (the logger construction is dropped), verbatim as a function of the event and the channel it came from; R5: the manager is a stub whose claim_funds_internal / fail_htlc_backwards_internal record their arguments in a ghost log (`&self` written `&mut self`); HTLCSource::failure_type and SentHTLCId::from_source are uninterpreted functions of the source
+//! assume: htlc_value_satoshis is at most the 21e6 BTC supply (the source multiplies by 1000 unchecked)
 //! trusted: R15 (deep slices): the statement(s) that register an RAA blocker in (a) internal_update_fulfill_htlc (body of `for prev_hop in res.0.previous_hop_data()`), (b) claim_mpp_part (live-channel arm), (c) claim_mpp_part (closed-channel arm, `.or_default()`), (d) from_channel_manager_data (re-registering the blockers of queued EmitEventOptionAndFreeOtherChannel actions on reload), each verbatim as a function of the blocker map; everything around them (the channel state machine call, the preimage monitor update, the completion actions) is dropped and not claimed here
 //! trusted: R15 (deep slice): handle_monitor_update_release: the predicate of the `retain` that removes the completed blocker from its channel's list, verbatim as a bool function; RAAMonitorUpdateBlockingAction's derived PartialEq is structural equality; the retain call itself and the removal of an emptied list are dropped and not claimed; raa_monitor_updates_held: the closure body and the default of `.get(&channel_id).map(|v| ..).unwrap_or(..)` (first disjunct) are placed in the two arms of a match on the looked-up list (std semantics of Option::map / unwrap_or); the second disjunct (pending ReleaseRAAChannelMonitorUpdate events) is dropped and not claimed
 //! trusted: R15 (deep slices): ChannelMonitorImpl::is_resolving_htlc_output: the two predicates that decide whether an on-chain preimage claim has already been reported (closure bodies of the `any` over pending_monitor_events) and the two HTLCUpdate values pushed as MonitorEvent::HTLCEvent, verbatim as functions; struct HTLCUpdate is extracted; HTLCSource opaque with structural equality; scanning the commitment for the HTLC, the ANTI_REORG_DELAY bookkeeping and the timeout branch are dropped and not claimed
@@ -222,6 +224,52 @@ impl PartialEq for PaymentHash { #[verifier::external_body] fn eq(&self, o: &Pay
 //@with
     payment_preimage: None, payment_hash, htlc_value_satoshis: amount_msat / 1000, })); } } else {
 //@end
+// ---- ChannelManager::process_pending_monitor_events: what the manager does with an on-chain resolution reported by the downstream monitor ----
+#[derive(Clone, Copy)] pub struct PublicKey { pub id: u64 }
+#[derive(Clone, Copy)] pub struct ChannelId { pub id: u64 }
+#[derive(Clone, Copy)] pub struct OutPoint { pub txid: u64, pub index: u16 }
+pub struct AttributionData {}
+pub struct Duration {}
+pub enum LocalHTLCFailureReason { OnChainTimeout, ChannelClosed, Other }
+pub struct HTLCFailReason { pub code: LocalHTLCFailureReason }
+impl HTLCFailReason { #[verifier::external_body] pub fn from_failure_code(c: LocalHTLCFailureReason) -> (r: HTLCFailReason) ensures r.code == c { unimplemented!() } }
+pub struct HTLCHandlingFailureType { pub node: PublicKey, pub chan: ChannelId, pub of: u64 }
+impl HTLCSource { #[verifier::external_body] pub fn failure_type(&self, counterparty_node: PublicKey, channel_id: ChannelId) -> (r: HTLCHandlingFailureType) ensures r == (HTLCHandlingFailureType { node: counterparty_node, chan: channel_id, of: self.id }) { unimplemented!() } }
+pub struct SentHTLCId { pub of: u64 }
+impl SentHTLCId { #[verifier::external_body] pub fn from_source(s: &HTLCSource) -> (r: SentHTLCId) ensures r.of == s.id { unimplemented!() } }
+pub struct PaymentCompleteUpdate { pub counterparty_node_id: PublicKey, pub channel_funding_outpoint: OutPoint, pub channel_id: ChannelId, pub htlc_id: SentHTLCId }
+pub enum Did {
+    ClaimedUpstream { source: HTLCSource, payment_preimage: PaymentPreimage, forwarded_htlc_value_msat: u64, skimmed_fee_msat: Option<u64>, from_onchain: bool, next_channel_counterparty_node_id: PublicKey, next_channel_outpoint: OutPoint, next_channel_id: ChannelId, next_user_channel_id: Option<u128>, next_htlc_id: Option<u64> },
+    FailedUpstream { source: HTLCSource, payment_hash: PaymentHash, code: LocalHTLCFailureReason, failure_type: HTLCHandlingFailureType, completion: Option<PaymentCompleteUpdate> },
+}
+pub struct Manager { pub did: Ghost<Seq<Did>> }
+impl Manager {
+    #[verifier::external_body] pub fn claim_funds_internal(&mut self, source: HTLCSource, payment_preimage: PaymentPreimage, forwarded_htlc_value_msat: u64, skimmed_fee_msat: Option<u64>, from_onchain: bool,
+        next_channel_counterparty_node_id: PublicKey, next_channel_outpoint: OutPoint, next_channel_id: ChannelId, next_user_channel_id: Option<u128>, next_htlc_id: Option<u64>, attribution_data: Option<AttributionData>, send_timestamp: Option<Duration>)
+        ensures final(self).did@ == old(self).did@.push(Did::ClaimedUpstream { source, payment_preimage, forwarded_htlc_value_msat, skimmed_fee_msat, from_onchain, next_channel_counterparty_node_id, next_channel_outpoint, next_channel_id, next_user_channel_id, next_htlc_id }) { unimplemented!() }
+    #[verifier::external_body] pub fn fail_htlc_backwards_internal(&mut self, source: &HTLCSource, payment_hash: &PaymentHash, onion_error: &HTLCFailReason, failure_type: HTLCHandlingFailureType, from_monitor_update_completion: Option<PaymentCompleteUpdate>)
+        ensures final(self).did@ == old(self).did@.push(Did::FailedUpstream { source: *source, payment_hash: *payment_hash, code: onion_error.code, failure_type, completion: from_monitor_update_completion }) { unimplemented!() }
+//@extract lightning/src/ln/channelmanager.rs :: impl ChannelManager :: fn process_pending_monitor_events
+//@slice R15
+    MonitorEvent::HTLCEvent(htlc_update) => { needs_persist = true; let logger = $lg:seq; if let Some(preimage) = htlc_update.payment_preimage { $claim:any } else { $fail:any } },
+//@with
+    fn act_on_onchain_htlc_resolution(&mut self, htlc_update: HTLCUpdate, counterparty_node_id: PublicKey, funding_outpoint: OutPoint, channel_id: ChannelId) { if let Some(preimage) = htlc_update.payment_preimage { $claim } else { $fail } }
+//@requires
+    htlc_update.htlc_value_satoshis <= 21_000_000 * 100_000_000,
+//@ensures P C02 a-preimage-the-downstream-monitor-saw-on-chain-claims-the-upstream-htlc-with-that-preimage-and-a-downstream-timeout-fails-that-very-htlc-back
+    final(self).did@ == old(self).did@.push(match htlc_update.payment_preimage {
+        Some(preimage) => Did::ClaimedUpstream { source: htlc_update.source, payment_preimage: preimage, forwarded_htlc_value_msat: (htlc_update.htlc_value_satoshis * 1000) as u64, skimmed_fee_msat: None, from_onchain: true,
+            next_channel_counterparty_node_id: counterparty_node_id, next_channel_outpoint: funding_outpoint, next_channel_id: channel_id, next_user_channel_id: None, next_htlc_id: None },
+        None => Did::FailedUpstream { source: htlc_update.source, payment_hash: htlc_update.payment_hash, code: LocalHTLCFailureReason::OnChainTimeout,
+            failure_type: HTLCHandlingFailureType { node: counterparty_node_id, chan: channel_id, of: htlc_update.source.id },
+            completion: Some(PaymentCompleteUpdate { counterparty_node_id, channel_funding_outpoint: funding_outpoint, channel_id, htlc_id: SentHTLCId { of: htlc_update.source.id } }) },
+    }),
+//@mutant onchain_claim_not_marked_as_from_chain
+    None, true, counterparty_node_id,
+//@with
+    None, false, counterparty_node_id,
+//@end
+}
 }
 }
 fn main() {}
